@@ -529,6 +529,17 @@ func genH1Case(t *tape.Tape, tier, mode string) *h1Case {
 			}
 			r.Path = genPath(t, r.Token, richReq)
 			r.Fields = genReqFields(t, richReq, true)
+			if r.Form != "abs" {
+				// (for a request without a scheme of its own the proxy takes the scheme from this field: only
+				// absolute-form requests carry it here)
+				kept := r.Fields[:0]
+				for _, f := range r.Fields {
+					if !strings.EqualFold(f.Name, "X-Forwarded-Proto") {
+						kept = append(kept, f)
+					}
+				}
+				r.Fields = kept
+			}
 			r.HostPos = 0
 			if richReq && len(r.Fields) > 0 {
 				r.HostPos = t.Intn(len(r.Fields) + 1)
@@ -808,7 +819,7 @@ func applyRule(m map[string][]string, rule string) {
 	}
 }
 
-var viaNewRe = regexp.MustCompile(`^(1\.[01]) ([A-Za-z0-9._-]+)-([0-9a-f]{20})$`)
+var viaNewRe = regexp.MustCompile(`^(1\.[01]) ([A-Za-z0-9._-]*)-([0-9a-f]{20})$`)
 
 func (w *h1World) check(siteUser, sitePass string) {
 	env, c := w.env, w.c
